@@ -72,8 +72,14 @@ RULE = (
     "short: exhaustive enumeration of every string of length <= 5 (quick) / <= 6 (thorough; plus length 7 "
     "for utf-8 str at widths 1..4) over a 6-letter alphabet per encoding (utf-8: a b space newline 漢 U+0301; "
     "euc-jp: a b space newline 漢 あ; iso8859-1: a b space newline é ü) x width 1..8 x wrap any/space/clip/"
-    "ellipsis x align left/center/right x str and encoded bytes; long: Hypothesis texts <= 60 characters made "
-    "of words (1..14 letters incl. double-width and combining characters where the encoding has them), runs "
+    "ellipsis x align left/center/right x str and encoded bytes, and for utf-8 also every string of length <= 4 "
+    "(quick) / <= 5 (thorough) over the emoji-sequence alphabet a, space, regional indicator U+1F1FA, ZWJ U+200D, "
+    "VS16 U+FE0F, narrow base U+2764, wide base U+1F469 (flags, ZWJ and VS16 sequences and their fragments: "
+    "code points that a sequence-aware measure counts together but urwid cuts one by one); long: Hypothesis texts "
+    "<= 60 characters made "
+    "of words (1..14 letters incl. double-width and combining characters where the encoding has them; utf-8 "
+    "letters include the parts of emoji sequences and one word in four is built from whole flag / VS16 / ZWJ / "
+    "skin-tone / keycap sequences - also in big, remode and switch), runs "
     "of 1..4 spaces and newlines, width 1..30, same modes; big: Hypothesis texts <= 700 characters holding at "
     "least one run of 40..400 repetitions of a 1..3-letter unit (double-width / zero-width letters favoured) "
     "plus up to six more runs, words, spaces and newlines, at width 1..30, 31..600 or within 2 columns of the "
@@ -93,6 +99,10 @@ RULE = (
 ASSUMPTIONS = [
     "trusted base: the wcwidth table for str / utf-8 bytes, the DBCS lead/trail rule for wide encodings, one "
     "byte one column for narrow encodings (vlib.widths), and Python's codecs for str -> bytes",
+    "the width of a stretch of text is the sum of the widths of its code points, also inside emoji sequences "
+    "(regional-indicator pairs, ZWJ / VS16 / modifier / keycap sequences): that is the unit in which urwid cuts "
+    "text and pads canvas rows; 'every displayed line fits in the width' is judged in it, whatever a "
+    "sequence-aware measure (wcswidth) or a particular terminal would say about the drawn picture",
     "user text is representable in the active encoding and, in wide mode, every character's encoded length "
     "equals its column width (urwid's definition of wide mode); other characters are not generated",
     "bytes texts are valid encodings of such strings (the quantifier says 'encoded bytes')",
@@ -116,9 +126,28 @@ ALPHABETS = {
     "euc-jp": ["a", "b", " ", "\n", "漢", "あ"],  # 2 bytes = 2 columns each; EUC-JP has no zero-width char
     "iso8859-1": ["a", "b", " ", "\n", "é", "ü"],  # Latin-1 letters: 1 byte = 1 column
 }
+# Emoji sequences: several code points that a terminal with emoji support may draw as one picture.  The statement's
+# "within the width" is measured, like everything else here, per code point with the wcwidth table (ASSUMPTIONS): that
+# is the unit in which urwid cuts text (calc_text_pos), checks canvas rows and moves the cursor, so a layout line must
+# fit in it whether or not a sequence-aware measure (wcswidth: flag = 2, ZWJ family = 2, heart + VS16 = 2) would
+# give another number.  The parts: regional indicators (2 columns each, a pair is a flag), ZERO WIDTH JOINER and
+# VARIATION SELECTOR-16 (0), COMBINING ENCLOSING KEYCAP (0), a skin-tone modifier (2), narrow (1) and wide (2) bases.
+EMOJI_PARTS = ["\U0001f1fa", "\U0001f1f8", "\u2764", "\U0001f469", "\U0001f3fd", "\u200d", "\ufe0f"]
+EMOJI_SEQS = [
+    "\U0001f1fa\U0001f1f8", "\U0001f1ec\U0001f1e7",  # flags: two regional indicators
+    "\u2764\ufe0f", "\u2708\ufe0f",  # narrow base + VS16 (emoji presentation)
+    "\U0001f469\u200d\U0001f469\u200d\U0001f467", "\U0001f468\u200d\U0001f4bb",  # ZWJ sequences
+    "\U0001f44d\U0001f3fd",  # base + skin-tone modifier
+    "1\ufe0f\u20e3", "#\ufe0f\u20e3",  # keycaps
+    "\U0001f3f3\ufe0f\u200d\U0001f308",  # VS16 and ZWJ in one sequence
+]
+# second exhaustive alphabet (utf-8 only): one part of each kind plus a letter and the space that wrapping needs
+EMOJI_ALPHABET = ["a", " ", "\U0001f1fa", "\u200d", "\ufe0f", "\u2764", "\U0001f469"]
+EMOJI_MARKS = frozenset("\u200d\ufe0f\u20e3") | {chr(o) for o in range(0x1F1E6, 0x1F200)} | {chr(o) for o in range(0x1F3FB, 0x1F400)}
+
 # letters of the Hypothesis words (urwid's table and wcwidth agree on all of them; C11 examines the table)
 LETTERS = {
-    "utf-8": list("abcdeXYZ.,-") + ["漢", "字", "あ", "한", "\U0001f600"] + ["\u0301", "\u0308", "\u200b"],
+    "utf-8": list("abcdeXYZ.,-") + ["漢", "字", "あ", "한", "\U0001f600"] + EMOJI_PARTS + ["\u0301", "\u0308", "\u200b"],
     "euc-jp": list("abcdeXYZ.,-") + ["漢", "字", "あ", "ア"],
     "iso8859-1": list("abcdeXYZ.,-") + ["é", "ü", "ß", "ñ"],
 }
@@ -767,8 +796,18 @@ def check_switch(case):
             raise Violation(v.clause, f"step {k} of a history under encodings {' -> '.join(seen)}: {v.message}") from None
 
 
+def _word(enc, max_letters):
+    """a word of 1..max_letters letters of the encoding; utf-8: one word in four is made of whole emoji sequences
+    (flags, VS16 / ZWJ / modifier / keycap sequences) mixed with ASCII letters"""
+    word = st.lists(st.sampled_from(LETTERS[enc]), min_size=1, max_size=max_letters).map("".join)
+    if enc != "utf-8":
+        return word
+    emoji = st.lists(st.sampled_from(EMOJI_SEQS + EMOJI_SEQS + ["a", "b", "-"]), min_size=1, max_size=max(1, max_letters // 2))
+    return st.one_of(word, word, word, emoji.map("".join))
+
+
 def _plain_text(enc, max_word, max_tokens, max_len):
-    word = st.lists(st.sampled_from(LETTERS[enc]), min_size=1, max_size=max_word).map("".join)
+    word = _word(enc, max_word)
     token = st.one_of(word, st.just(" "), st.just("  "), st.just("\n"))
     return st.lists(token, max_size=max_tokens).map(lambda toks: "".join(toks)[:max_len])
 
@@ -842,9 +881,10 @@ def _big_strategy(draw):
         st.sampled_from(letters),
         st.sampled_from(special),
         st.lists(st.sampled_from(letters), min_size=2, max_size=3).map("".join),
+        *([st.sampled_from(EMOJI_SEQS)] if enc == "utf-8" else []),
     )
     run = st.tuples(unit, st.integers(40, 400)).map(lambda t: (t[0] * t[1])[:400])
-    word = st.lists(st.sampled_from(letters), min_size=1, max_size=14).map("".join)
+    word = _word(enc, 14)
     spaces = st.integers(1, 4).map(lambda k: " " * k)
     token = st.one_of(run, word, word, spaces, spaces, st.just("\n"))
     # at least one long run, with up to three other tokens on either side of it
@@ -939,8 +979,7 @@ def check_remode(case):
 
 def _remode_strategy():
     def for_enc(enc):
-        letters = LETTERS[enc]
-        word = st.lists(st.sampled_from(letters), min_size=1, max_size=8).map("".join)
+        word = _word(enc, 8)
         token = st.one_of(word, st.just(" "), st.just("  "), st.just("\n"))
         text = st.lists(token, max_size=10).map(lambda toks: "".join(toks)[:30])
         step = st.tuples(st.sampled_from(SETTERS), text, st.sampled_from(WRAPS), st.sampled_from(ALIGNS)).map(list)
@@ -996,14 +1035,16 @@ def classify(case):
             out.append("needs-wrap:has-zero-width")
         if info.max_word > w:
             out.append("word-longer-than-width")
+        if not EMOJI_MARKS.isdisjoint(case["text"]):
+            out.append("needs-wrap:has-emoji-sequence-part")
     if len(info.paras) > 1:
         out.append("multi-paragraph")
     return out
 
 
-def short_cases(ctx, encodings, maxlen, widths, kinds=(False, True), minlen=0):
+def short_cases(ctx, encodings, maxlen, widths, kinds=(False, True), minlen=0, alphabet=None):
     for enc in encodings:
-        alpha = ALPHABETS[enc]
+        alpha = alphabet or ALPHABETS[enc]
         idx = 0
         for n in range(minlen, maxlen + 1):
             for tup in itertools.product(alpha, repeat=n):
@@ -1013,7 +1054,7 @@ def short_cases(ctx, encodings, maxlen, widths, kinds=(False, True), minlen=0):
                 s = "".join(tup)
                 # quick tier: strings of the maximal length get one alignment each (rotating over the strings; the
                 # alignment only decides the padding, which every shorter string exercises in full) - cost bound
-                thin = ctx.tier == "quick" and n == maxlen and n >= 5
+                thin = ctx.tier == "quick" and n == maxlen and n >= (5 if alphabet is None else 4)
                 for is_bytes in kinds:
                     for width in widths:
                         for wrap in WRAPS:
@@ -1023,8 +1064,7 @@ def short_cases(ctx, encodings, maxlen, widths, kinds=(False, True), minlen=0):
 
 def _long_strategy():
     def for_enc(enc):
-        letters = LETTERS[enc]
-        word = st.lists(st.sampled_from(letters), min_size=1, max_size=14).map("".join)
+        word = _word(enc, 14)
         asciiword = st.text(alphabet="abcde", min_size=1, max_size=9)
         spaces = st.integers(1, 4).map(lambda k: " " * k)
         breaks = st.sampled_from(["\n", "\n\n", " \n", "\n "])
@@ -1063,6 +1103,14 @@ def shard(ctx):
     if ctx.failure is None:
         ctx.sweep("short", short_cases(ctx, ENCODINGS, maxlen, widths), nontrivial=is_nontrivial, classify=classify,
                   exhaustive_name=f"all strings of length <= {maxlen} x width 1..8 x wrap x align (quick: one rotating alignment for the longest strings) x str/bytes x 3 encodings",
+                  stride=False)
+    emaxlen = ctx.scale(4, 5)
+    if ctx.failure is None:
+        ctx.sweep("short", short_cases(ctx, ("utf-8",), emaxlen, widths, alphabet=EMOJI_ALPHABET),
+                  nontrivial=is_nontrivial, classify=classify,
+                  exhaustive_name=f"utf-8: all strings of length <= {emaxlen} over the emoji-sequence alphabet (a, space, regional "
+                                  "indicator, ZWJ, VS16, narrow and wide emoji base) x width 1..8 x wrap x align (quick: one "
+                                  "rotating alignment for the longest strings) x str/bytes",
                   stride=False)
     if ctx.failure is None and ctx.tier == "thorough":
         ctx.sweep("short", short_cases(ctx, ("utf-8",), 7, range(1, 5), kinds=(False,), minlen=7),
